@@ -36,7 +36,25 @@ def run(ctx):
             pop = c.args[0] if c.args else kw.get("population")
             wts = c.args[1] if len(c.args) > 1 else kw.get("weights")
             kk = kw.get("k")
-            if "cum_weights" in kw:
+            state_src = []
+            for arg_ in [pop, wts, kw.get("cum_weights")]:
+                if arg_ is None:
+                    continue
+                for nm_ in rules.names_closure(sc, arg_):
+                    for st_ in sc.assigns.get(nm_, []) + [x for x in sc.other_binds.get(nm_, []) if isinstance(x, ast.Assign)]:
+                        for x in ast.walk(st_.value):
+                            a_ = astx.self_attr(x)
+                            if a_ is not None and a_ not in ("_jdd", "jdd") and prog.method(ci, a_) is None:
+                                state_src.append((a_, st_))
+                for x in ast.walk(arg_):
+                    a_ = astx.self_attr(x)
+                    if a_ is not None and a_ not in ("_jdd", "jdd") and prog.method(ci, a_) is None:
+                        state_src.append((a_, c))
+            if state_src:
+                a_, st_ = state_src[0]
+                o.violated(sf, st_, f"the draw takes its keys / weights from `self.{a_}`, state kept from an earlier call, instead of reading the current distribution: after the "
+                                    "distribution is re-weighted in place the sample still follows the old weights")
+            elif "cum_weights" in kw:
                 o.undecided("cum_weights form not recognised", sf, c)
             elif wts is None:
                 o.violated(sf, c, "random.choices without weights: keys are drawn uniformly, not in proportion to their probability")
